@@ -23,8 +23,8 @@ use vengine::gen::SplitMix;
 use vengine::{enum_sub, prop_sub, Property, Tier};
 
 fn kernel_strategy(max_n: usize) -> impl Strategy<Value = KCase> {
-    (records(2, max_n, data_class()), kernel_method_any(), any::<u16>(), 1u8..=3, any::<u64>(), 0u8..6, gen::placement()).prop_map(
-        |((class, mut x), (method, nonneg), k, rhs_cols, rhs_seed, path, (single, mut offset, scale))| {
+    (records(2, max_n, data_class()), kernel_method_any(), any::<u16>(), 1u8..=3, any::<u64>(), 0u8..6, gen::placement(), 0u8..18).prop_map(
+        |((class, mut x), (method, nonneg), k, rhs_cols, rhs_seed, path, (single, mut offset, scale), order)| {
             offset.truncate(x.first().map(|r| r.len()).unwrap_or(0));
             if nonneg {
                 // fractional polynomial degree: reflect the records into the non-negative orthant so that every
@@ -35,7 +35,7 @@ fn kernel_strategy(max_n: usize) -> impl Strategy<Value = KCase> {
                     }
                 }
             }
-            KCase { class, x, method, k, rhs_cols, rhs_seed, path, offset, scale, single }
+            KCase { class, x, method, k, rhs_cols, rhs_seed, path, offset, scale, single, order }
         },
     )
 }
@@ -69,8 +69,9 @@ fn hier_strategy(max_n: usize, crit: impl Strategy<Value = Crit> + 'static) -> i
         proptest::option::weighted(0.2, any::<u16>()),
         crit,
         any::<bool>(),
+        0u8..18,
     )
-        .prop_map(|((class, x), (link, method), sparse_k, crit, via_dataset)| HCase { class, x, method, sparse_k, link, crit, via_dataset })
+        .prop_map(|((class, x), (link, method), sparse_k, crit, via_dataset, order)| HCase { class, x, method, sparse_k, link, crit, via_dataset, order })
 }
 
 fn all_num_clusters(max_n: usize) -> Vec<HCase> {
@@ -91,6 +92,7 @@ fn all_num_clusters(max_n: usize) -> Vec<HCase> {
                     link,
                     crit: Crit::Num(q.min(65535) as u16),
                     via_dataset: (n + req) % 2 == 0,
+                    order: ((n + 2 * req) % 6) as u8,
                 });
             }
         }
@@ -116,6 +118,7 @@ fn tiny_kernels() -> Vec<KCase> {
                     offset: if path % 2 == 0 { vec![] } else { vec![1000.0, 0.0] },
                     scale: 1.0,
                     single: path >= 3,
+                    order: 3 * path + 1,
                 });
             }
         }
@@ -139,6 +142,7 @@ fn near_duplicate_clusters() -> Vec<KCase> {
         offset,
         scale: 1.0,
         single,
+        order: 0,
     };
     let cluster = |n: usize, p: usize, odd: Vec<f64>, pos: usize| -> Vec<Vec<f64>> {
         (0..n).map(|i| if i == pos { odd.clone() } else { vec![0.0; p] }).collect()
@@ -175,7 +179,7 @@ fn tiny_clusterings() -> Vec<HCase> {
                 ];
                 for (i, crit) in crits.into_iter().enumerate() {
                     let x: gen::Mat = (0..n).map(|_| vec![0.5, 2.0, -1.0]).collect();
-                    v.push(HCase { class: DataClass::Gaussian, x, method: method.clone(), sparse_k: None, link, crit, via_dataset: i % 2 == 0 });
+                    v.push(HCase { class: DataClass::Gaussian, x, method: method.clone(), sparse_k: None, link, crit, via_dataset: i % 2 == 0, order: (i % 6) as u8 });
                 }
             }
         }
@@ -189,6 +193,7 @@ pub fn property() -> Property {
         rule: "kernel cases = (record matrix n x p from {lattice, duplicates, clustered, gaussian}, kernel method, neighbour count k in 1..n, \
                dot right-hand side, construction path, per-feature offset and spacing of the point cloud, element type f64|f32); every case builds the dense kernel and the sparse kernel under LinearSearch, KdTree and BallTree. \
                clustering cases = (records, kernel method, dense|sparse kernel, linkage in {single, complete, average, weighted, ward}, \
+               order of the builder calls of HierarchicalCluster and KernelParams incl. a setter called twice (last call wins), \
                NumClusters(1..=n+2) | Distance(theta derived from the case: between / equal to pairwise dissimilarities or reference merge heights)). \
                Non-trivial = sparse kernel whose k-nearest-neighbour relation is asymmetric (some i has j among its k nearest but not vice versa), \
                or a threshold run whose expected partition has strictly between 1 and n clusters, \
